@@ -160,6 +160,7 @@ class FuncV:
     doc_target: Any = None  # ExtV named by @docstring_from
     cls: Any = None  # owning ClassV for methods
     kind: str = "function"  # function | staticmethod | property | classmethod
+    pending: List[Any] = field(default_factory=list)  # decorator expressions not yet applied
 
     def __repr__(self) -> str:
         return f"<fn {self.module.name}.{self.qualname}>"
